@@ -79,6 +79,7 @@ def make_cohort(
     whole_feature_missing: bool = False,
     id_prefix: str = "S",
     ensure_two_visits: int = 2,
+    baseline_axis: bool = False,
 ) -> pd.DataFrame:
     """Return a long dataframe with columns ID, TIME, features... (+ EVENT_TIME, EVENT_BOOL).
 
@@ -142,6 +143,13 @@ def make_cohort(
                 row[f] = round(val, 5)
             rows.append(row)
     df = pd.DataFrame(rows)
+    if baseline_axis:
+        # time axis "years since baseline": the whole cohort is shifted so that its earliest visit is at exactly 0.0
+        # (0 is also what pads the ages of individuals with fewer visits: a real visit at 0 must still count)
+        t0 = float(df["TIME"].min())
+        df["TIME"] = (df["TIME"] - t0).round(3)
+        if info["event"]:
+            df["EVENT_TIME"] = (df["EVENT_TIME"] - t0).round(3)
     if info["event"]:
         # at least one censored and one observed event
         ids = list(dict.fromkeys(df["ID"]))
